@@ -247,7 +247,7 @@ func c37Enumerate(c *lib.Ctx, yield func(c37Case) bool) {
 	// tool's parent context), per statement family that reaches the engine
 	for _, n := range []int{1, 2} {
 		if !yield(c37Case{Family: "cancel", Stmt: fmt.Sprintf("cancel-mid-query-%d", n), Wrap: "plain",
-			SQL: recursiveRows(2000000000, "SELECT COUNT(*) FROM c"), Special: "cancel"}) {
+			SQL: recursiveRows(3000000, "SELECT COUNT(*) FROM c"), Special: "cancel"}) {
 			return
 		}
 	}
@@ -552,7 +552,9 @@ func runC37Case(cs c37Case) (string, []lib.Problem) {
 	// (3) documented caps: <= 1000 rows, body <= 64 KiB, plus one summary line
 	if strings.HasPrefix(out, "[") {
 		first, body, _ := strings.Cut(out, "\n")
-		if len(body) > daisen2.VerifDataQueryByteCap {
+		if header, _, _ := strings.Cut(body, "\n"); len(header)+1 > daisen2.VerifDataQueryByteCap {
+			bad("byte-cap-exceeded-by-column-names", "the column-name line alone is %d bytes, result body %d bytes (cap %d) for %s/%s: summary %q", len(header), len(body), daisen2.VerifDataQueryByteCap, cs.Stmt, cs.Wrap, first)
+		} else if len(body) > daisen2.VerifDataQueryByteCap {
 			bad("byte-cap-exceeded", "result body is %d bytes (cap %d) for %s/%s: summary %q", len(body), daisen2.VerifDataQueryByteCap, cs.Stmt, cs.Wrap, first)
 		}
 		if cs.Special == "size" || cs.Family == "select" {
@@ -664,7 +666,7 @@ func init() {
 		Assumptions: []string{
 			"the -shm file is compared by name only: SQLite readers update its read marks by design",
 			"row counting assumes no newline inside a cell, true for every enumerated size case",
-			"mid-query cancellation is triggered 300 ms after the call starts; the query it interrupts cannot finish in that time (2e9-step recursive CTE)",
+			"mid-query cancellation is triggered 300 ms after the call starts; the query it interrupts (3e6-step recursive CTE, tens of seconds) cannot finish in that time; if the cancellation were lost the case would only be slow, not failing",
 		},
 		Run: func(c *lib.Ctx) {
 			defer lib.CleanScratch()
